@@ -240,7 +240,7 @@ func batchMain(t *testing.T, spec *Spec, prop, tier string) {
 			if len(steps) > 60 {
 				steps = steps[:60]
 			}
-			sum.Samples = append(sum.Samples, map[string]any{"seed": seed, "config": d.Cfg, "steps_total": len(d.Steps), "steps_head": steps})
+			sum.Samples = append(sum.Samples, map[string]any{"seed": strconv.FormatUint(seed, 10), "config": d.Cfg, "steps_total": len(d.Steps), "steps_head": steps})
 		}
 		// continuous determinism self-test: same seed again, event-log hashes must agree
 		if detEvery > 0 && k%detEvery == 1 {
